@@ -8,7 +8,6 @@ EXTRACT = "coq/C06/Extract_C06.v"
 DRIVER = "props/C06/driver.ml"
 PROGS = {"c06unit": ["props/C06/unit.cpp"]}
 TOL = 1e-9
-_NOHYP = [False]
 
 
 def close(a, b, tol=TOL):
@@ -172,6 +171,13 @@ def flist(s):
     return [float.fromhex(t) for t in s.split(",")]
 
 
+def vlist(s):
+    """list of vector values: variables separated by ',', components by '/'"""
+    if s is None or s == "-" or s == "":
+        return []
+    return [[float.fromhex(u) for u in t.split("/")] for t in s.split(",")]
+
+
 def parse_model_line(line):
     out = []
     for part in line.split(" ; "):
@@ -214,7 +220,10 @@ def parse_impl(lines):
                 ti.append((float(m.group(1)), float(m.group(2))))
         elif l.startswith("RD "):
             d = parse_fields(l)
-            o = {"it": int(d["it"]), "E": float.fromhex(d["E"]), "F": flist(d.get("F")), "C": flist(d.get("C")),
+            vec = "/" in (d.get("X") or "")
+            o = {"it": int(d["it"]), "E": float.fromhex(d["E"]),
+                 "F": (vlist if vec else flist)(d.get("F")), "C": (vlist if vec else flist)(d.get("C")),
+                 "X": (vlist if vec else flist)(d.get("X")),
                  "K": float.fromhex(d["K"]) if "K" in d else None, "ST": int(d.get("ST", 0)), "FS": int(d.get("FS", 0)),
                  "W": float.fromhex(d.get("W", "0x0p+0")), "FE": float.fromhex(d.get("FE", "0x0p+0")),
                  "KI": float.fromhex(d.get("KI", "0x0p+0")), "TI": ti,
@@ -346,44 +355,31 @@ def same_mod(a, b, v):
 
 
 def oracle(c, d, steps):
-    """Property oracle on the implementation's outputs alone.  Returns a list of (signature, text).
-    `steps` are the parsed RD records, one per event."""
+    """Property oracle on the implementation's outputs alone (exact rational re-computation of the documented
+    closed forms).  Returns a list of (signature, text).  `steps` are the parsed RD records, one per event.
+    Full strength: every schedule, the accumulated work and the staged TI lines are claimed for EVERY
+    segmentation (run boundaries and restarts compute a step again; a step counts once)."""
     bad = []
     first = c["it0"]
     m = c["mode"]
     N = c.get("N", 0)
-    # which events re-execute a step (boundary/restart) and at which step
     t = None
     evinfo = []
     for (typ, xs) in c["events"]:
         if t is None:
             t = c["it0"]
-            typ_eff = "S" if typ == "S" else typ
         elif typ == "S":
             t += 1
         evinfo.append((typ, t, xs))
-    # hypotheses of the _partial theorems
-    nohyp = _NOHYP[0]
-    sched_ok = True     # schedule (centres / k) is claimed for this scenario
-    if nohyp:
-        pass
-    elif m == "cs":
-        if N < 2 or any(typ == "B" and t > first and (t - first) % N == 1 for typ, t, _ in evinfo[1:]):
-            sched_ok = False
-    if m in ("ks", "kl") and not nohyp:
-        if any(typ in ("B", "R") and t > first and (t - first) % N == 0 for typ, t, _ in evinfo[1:]):
-            sched_ok = False
     W = Fr(0)
     seen = set()
-    prevc = None
-    prevk = None
-    work_ok = c["accw"] and (nohyp or not any(v["per"] for v in c["vars"]))
-    ti_acc = {}     # stage -> (sum, count, clean)
-    dirty_stages = set()
+    ti_acc = {}     # stage -> (sum, count)
+    nst = d["nstages"]
     for idx, ((typ, t, xs), o) in enumerate(zip(evinfo, steps)):
         if o["it"] != t:
             bad.append(("protocol:step-number", "event %d: the module is at step %d, the engine at %d" % (idx, o["it"], t)))
             break
+        new = t not in seen          # first time this step is computed
         # ---- potentials at the parameters the implementation reports
         kimp = fr(o["K"]) if o["K"] is not None else fr(d["k0"])
         cimp = o["C"] if c["kind"] != "walls" else []
@@ -393,57 +389,58 @@ def oracle(c, d, steps):
         if len(F) != len(o["F"]) or not all(close(float(a), b) for a, b in zip(F, o["F"])):
             bad.append(("potential:%s:force" % c["kind"], "step %d values %s centres %s k %s: forces %r, minus the gradient of the closed form %r" % (t, xs, cimp, float(kimp), o["F"], [float(f) for f in F])))
         # ---- schedules: function of the step number alone
-        if sched_ok and m != "none":
+        if m != "none":
             ks = spec_k(c, d, t, first)
             if o["K"] is not None and not close(float(ks), o["K"]):
                 bad.append(("schedule:k", "step %d (first %d, N %d): force constant %r, schedule prescribes %r" % (t, first, N, o["K"], float(ks))))
             cs = spec_centers(c, d, t, first)
             if cs and not all(same_mod(a, b, v) for a, b, v in zip(cs, o["C"], c["vars"])):
                 bad.append(("schedule:centers", "step %d (first %d, N %d): centres %r, schedule prescribes %r" % (t, first, N, o["C"], [float(x) for x in cs])))
-            if m in ("cc", "cs", "kc", "ks", "kl") and o["FS"] != first:
+            if o["FS"] != first:
                 bad.append(("schedule:first_step", "step %d: first_step is %d, the restraint was defined at step %d" % (t, o["FS"], first)))
-        # ---- accumulated work (each step counted once: at its first execution)
-        if work_ok and m in ("cc", "kc"):
-            if t not in seen and t > first and t - first <= N:
+        # ---- accumulated work: sum over the steps (each once) of force x centre increment, resp. dU/dk x k increment
+        if c["accw"] and m in ("cc", "kc"):
+            if new and t > first and t - first <= N:
                 if m == "cc":
                     cu = spec_centers(c, d, t, first, wrap=False)
                     cp = spec_centers(c, d, t - 1, first, wrap=False)
                     Es, Fs, _ = spec_terms(c, d, kimp, cu, xs)
-                    W += sum(f * (a - b) for f, a, b in zip(Fs, cu, cp))
+                    inc = [shortest(a - b, fr(v["P"])) if v["per"] else a - b for a, b, v in zip(cu, cp, c["vars"])]
+                    W += sum(f * dc for f, dc in zip(Fs, inc))
                 else:
                     _, _, dk = spec_terms(c, d, kimp, cimp, xs)
                     W += dk * (spec_k(c, d, t, first) - spec_k(c, d, t - 1, first))
-            if (m == "cc" or t - first <= N or nohyp) and not close(float(W), o["W"]):
+            if not close(float(W), o["W"]):
                 bad.append(("work:%s" % ("centers" if m == "cc" else "k"), "step %d: accumulated work %r, sum of force x increment over the steps so far %r" % (t, o["W"], float(W))))
-        # ---- staged TI
+        # ---- staged TI: one line per stage, written by the new step that ends it, = mean of dU/dlambda over the
+        #      stage's sampled steps (steps s in (first+gN, first+(g+1)N] with equil = 0 or (s-first) mod N >= equil)
         if m in ("ks", "kl"):
             eq = c["equil"]
-            g = min(d["nstages"], max(0, (t - first - 1)) // N) if t > first else 0    # stage whose window (first+gN, first+(g+1)N] contains t
-            if typ in ("B", "R") and idx > 0:
-                dirty_stages.add(g)
-                if (t - first) % N == 0:
-                    dirty_stages.add(g + 1)
-            if t not in seen and t <= first + (d["nstages"] + 1) * N:
+            if new and t > first:
+                g = (t - first - 1) // N
                 r = (t - first) % N
-                counted = (eq == 0) or (r >= eq)
-                if counted:
+                if g <= nst and (eq == 0 or r >= eq):
                     lam = spec_lambda_stage(c, d, g)
                     e = c["lexp"]
                     fac = Fr(e) * fpow(lam, e - 1.0) * (fr(d["tk"]) - fr(d["sk"]))
                     s_, n_ = ti_acc.get(g, (Fr(0), 0))
                     ti_acc[g] = (s_ + fac * dUdk, n_ + 1)
-            if t not in seen and t > first and (t - first) % N == 0 and t <= first + (d["nstages"] + 1) * N and sched_ok:
+            ends = new and t > first and (t - first) % N == 0
+            if ends and not o["TI"]:
+                bad.append(("ti:line-missing", "step %d ends a stage and no dA/dLambda line was written" % t))
+            if not ends and o["TI"]:
+                bad.append(("ti:unexpected-line", "step %d (%s, first %d, N %d) does not end a stage for the first time, yet a dA/dLambda line %r was written" % (t, {"S": "plain step", "B": "run boundary", "R": "restart"}[typ], first, N, o["TI"])))
+            if ends and o["TI"] and t <= first + (nst + 1) * N:
+                g = (t - first) // N - 1
                 s_, n_ = ti_acc.get(g, (Fr(0), 0))
-                claimed = nohyp or (g not in dirty_stages and not any(gg in dirty_stages for gg in range(g)) and not (g == 0 and eq == 0))
-                if claimed and n_ > 0:
-                    mean = s_ / n_
-                    if not o["TI"]:
-                        bad.append(("ti:line-missing", "step %d: stage %d ended and no dA/dLambda line was written" % (t, g)))
-                    else:
-                        got = o["TI"][0][1]
-                        if abs(got - float(mean)) > 2e-5 * max(1.0, abs(got), abs(float(mean))):
-                            sig = "ti:first-stage-mean" if (g == 0 and eq == 0) else "ti:stage-mean"
-                            bad.append((sig, "stage %d (lambda %r) ended at step %d: dA/dLambda written %r, mean of dU/dlambda over the %d sampled steps of the stage %r" % (g, float(spec_lambda_stage(c, d, g)), t, got, n_, float(mean))))
+                if n_ != N - eq:
+                    bad.append(("oracle:ti-count", "stage %d: %d sampled steps, expected %d" % (g, n_, N - eq)))
+                mean = s_ / n_ if n_ else Fr(0)
+                lam_w, got = o["TI"][0]
+                if abs(got - float(mean)) > 2e-5 * max(1.0, abs(got), abs(float(mean))):
+                    bad.append(("ti:stage-mean", "stage %d (lambda %r) ended at step %d: dA/dLambda written %r, mean of dU/dlambda over the %d sampled steps of the stage %r" % (g, float(spec_lambda_stage(c, d, g)), t, got, n_, float(mean))))
+                if abs(lam_w - float(spec_lambda_stage(c, d, g))) > 2e-5:
+                    bad.append(("ti:stage-lambda", "stage %d ended at step %d: Lambda written %r, schedule %r" % (g, t, lam_w, float(spec_lambda_stage(c, d, g)))))
         seen.add(t)
     return bad
 
@@ -560,38 +557,39 @@ def gen_case(r, k, quick=True):
 
 
 def witness_cases():
-    """replay scenarios of the _refuted theorems of Properties_C06.v (same inputs as the Coq witnesses)"""
+    """Scenarios of the defects repaired by the fix-C06 commits (same inputs as the Examples of Properties_C06.v):
+    (signature reported when the defect is back, oracle signature that detects it, scenario)."""
     v1 = [{"w": 0.5, "per": False}]
     base = {"kind": "harmonic", "vars": v1, "it0": 0, "accw": False, "dec": False, "lexp": 1.0, "equil": 0,
             "centers": [1.0], "target_centers": [3.0], "k": 2.0, "N": 3, "nstages": 2, "fmt": "text"}
     S = lambda n, x=0.5: [("S", [x])] * n
     W = []
-    # staged k, boundary / restart exactly at the end of a stage: the stage advances twice
+    # staged k, boundary / restart exactly at the end of a stage: the stage must advance once
     c = dict(base, mode="ks", tk=4.0, N=3, nstages=2, equil=1, events=S(4) + [("B", [0.5])] + S(3))
-    W.append(("staged-k:run-boundary-at-stage-end-advances-stage-twice", "schedule:k", c, True))
+    W.append(("staged-k:run-boundary-at-stage-end-advances-stage-twice", "schedule:k", c))
     c = dict(base, mode="ks", tk=4.0, N=3, nstages=2, equil=1, events=S(4) + [("R", [0.5])] + S(3))
-    W.append(("staged-k:restart-at-stage-end-advances-stage-twice", "schedule:k", c, True))
+    W.append(("staged-k:restart-at-stage-end-advances-stage-twice", "schedule:k", c))
     # staged centres
     c = dict(base, mode="cs", N=2, nstages=2, events=S(2) + [("B", [0.5])] + S(4))
-    W.append(("staged-centers:run-boundary-at-stage-start-advances-stage-twice", "schedule:centers", c, True))
+    W.append(("staged-centers:run-boundary-at-stage-start-advances-stage-twice", "schedule:centers", c))
     c = dict(base, mode="cs", N=1, nstages=2, events=S(5))
-    W.append(("staged-centers:targetNumSteps-1-never-moves", "schedule:centers", c, True))
-    # work of a changing force constant keeps growing after the schedule has ended
+    W.append(("staged-centers:targetNumSteps-1-never-moves", "schedule:centers", c))
+    # work of a changing force constant must stop growing when the schedule has ended
     c = dict(base, mode="kc", tk=3.0, k=1.0, N=2, accw=True, events=S(6))
-    W.append(("work-k:accumulates-after-schedule-end", "work:k", c, True))
-    # moving centre of a periodic variable: increment taken between unwrapped new and wrapped old centre
+    W.append(("work-k:accumulates-after-schedule-end", "work:k", c))
+    # moving centre of a periodic variable crossing the wrapping boundary
     c = dict(base, mode="cc", vars=[{"w": 0.5, "per": True, "P": 4.0, "wc": 0.0}], centers=[1.5], target_centers=[3.5],
              k=1.0, N=4, accw=True, events=S(6))
-    W.append(("work-centers:periodic-centre-wrap-adds-period-to-increment", "work:centers", c, True))
-    # TI: first stage with no equilibration sums N+1 samples and divides by N
+    W.append(("work-centers:periodic-centre-wrap-adds-period-to-increment", "work:centers", c))
+    # TI: first stage with no equilibration
     c = dict(base, mode="ks", tk=4.0, N=3, nstages=2, equil=0, events=S(8))
-    W.append(("ti:first-stage-N+1-samples-divided-by-N", "ti:first-stage-mean", c, False))
-    # TI: restraint_FE is not saved: a restart inside a stage loses the samples taken before it
+    W.append(("ti:first-stage-N+1-samples-divided-by-N", "ti:stage-mean", c))
+    # TI: restart inside a stage (restraint_FE must be in the state)
     c = dict(base, mode="ks", tk=4.0, N=4, nstages=2, equil=1, events=S(3) + [("R", [0.5])] + S(4))
-    W.append(("ti:restart-inside-stage-loses-samples", "ti:stage-mean", c, False))
-    # TI: the repeated step at a run boundary is sampled twice
+    W.append(("ti:restart-inside-stage-loses-samples", "ti:stage-mean", c))
+    # TI: the repeated step at a run boundary must not be sampled twice
     c = dict(base, mode="ks", tk=4.0, N=4, nstages=2, equil=1, events=S(3, 0.5) + [("B", [0.5])] + S(4))
-    W.append(("ti:run-boundary-inside-stage-samples-step-twice", "ti:stage-mean", c, False))
+    W.append(("ti:run-boundary-inside-stage-samples-step-twice", "ti:stage-mean", c))
     return W
 
 
@@ -695,11 +693,25 @@ def abmd_part(run, r, runner, n):
         cases.append({"k": kk, "dec": dec, "stop": stop, "xs": xs})
     scn, ml = [], []
     for k, c in enumerate(cases):
-        scn += ["echo CASE %d" % k, "natoms 1", "new", "config EOF"] + colvar_block(0, {"w": 1.0, "per": False}) + [
+        conf = ["config EOF"] + colvar_block(0, {"w": 1.0, "per": False}) + [
             "abmd {", "  name r", "  colvars v0", "  forceConstant %r" % c["k"], "  stoppingValue %r" % c["stop"],
-            "  decreasing %s" % ("on" if c["dec"] else "off"), "}", "EOF", "show atomf 0 cv 0 energy 0 bias 0"]
-        for x in c["xs"]:
+            "  decreasing %s" % ("on" if c["dec"] else "off"), "}", "EOF"]
+        scn += ["echo CASE %d" % k, "natoms 1", "new"] + conf + ["show atomf 0 cv 0 energy 0 bias 0"]
+        # some steps are computed again at a run boundary or after save / new process / load: the ratchet must not move
+        seg = r.choice(["none", "B", "R", "BR"])
+        xs2 = []
+        for i, x in enumerate(c["xs"]):
             scn += ["pos 1 0 0 %s" % hx(x), "step", "rdump"]
+            xs2.append(x)
+            if seg != "none" and i > 0 and r.random() < 0.3:
+                if r.choice(list(seg)) == "B":
+                    scn += ["runboundary", "step", "rdump"]
+                else:
+                    f = os.path.join(runner.scratch, "ab%d_%d.state" % (k, i))
+                    scn += ["save %s %s" % (r.choice(["text", "binary"]), f), "fresh"] + conf + ["load %s" % f, "step", "rdump"]
+                xs2.append(x)
+        c["xs"] = xs2
+        c["seg"] = seg
         scn.append("echo END %d" % k)
         ml.append("ABMD %s %s %d %d %s" % (hx(c["k"]), hx(c["stop"]), c["dec"], len(c["xs"]), " ".join(hx(x) for x in c["xs"])))
     rc, mout, e = V.run_lines(runner.model, ml)
@@ -708,8 +720,8 @@ def abmd_part(run, r, runner, n):
     for k, c in enumerate(cases):
         cs = impl.get(k)
         run.dist("abmd")
-        if cs is None or not cs["complete"] or len(cs["steps"]) != len(c["xs"]):
-            run.mismatch("abmd", c, (cs or {}).get("raw", [])[-3:], "complete run")
+        if cs is None or not cs["complete"] or len(cs["steps"]) != len(c["xs"]) or any("err=ok" not in l for l in cs["config"]):
+            run.mismatch("abmd", c, ((cs or {}).get("config", []) + (cs or {}).get("raw", []))[-3:], "complete run")
             continue
         mo = [[float.fromhex(t) for t in part.split()] for part in mout[k].split(" ; ")] if k < len(mout) else []
         ref = None
@@ -733,6 +745,266 @@ def abmd_part(run, r, runner, n):
             if i < len(mo) and not (close(mo[i][0], o["E"]) and close(mo[i][1], o["F"][0]) and close(mo[i][2], o["REF"])):
                 run.mismatch("abmd", {"case": c, "step": i}, [o["E"], o["F"][0], o["REF"]], mo[i])
         run.count("abmd%d" % k, moved >= 2)
+
+
+def hist_part(run, r, runner, n):
+    """histogramRestraint on 1-4 scalar values: energy = 1/2 (k M) sum_g (h(xi_g) - h0_g)^2, force = minus its derivative"""
+    cases = []
+    for k in range(n):
+        M = r.choice([1, 2, 2, 3, 4])
+        width = r.choice([0.25, 0.5, 1.0, 1.0, 2.0])
+        nb = r.randint(2, 8)
+        lower = V.dyadic(r, -3, 1, bits=2)
+        sigma = r.choice([None, 0.25, 0.5, 1.0, 2.0])
+        ref = [r.choice([0.0, 0.125, 0.25, 0.5, 1.0, 2.0]) for _ in range(nb)]
+        if sum(ref) == 0:
+            ref[r.randrange(nb)] = 1.0
+        if r.random() < 0.3:     # already normalised (integral 1 within 1e-3): left as it is by the code
+            tot = sum(ref) * width
+            ref = [x / tot for x in ref]
+        kk = r.choice([0.5, 1.0, 2.0, 8.0])
+        steps = []
+        for s_ in range(r.randint(2, 5)):
+            steps.append([lower + V.dyadic(r, -1, nb * width + 1, bits=3) for _ in range(M)])
+        cases.append({"M": M, "width": width, "nb": nb, "lower": lower, "sigma": sigma, "ref": ref, "k": kk, "steps": steps})
+    scn, ml, refs = [], [], []
+    for k, c in enumerate(cases):
+        M = c["M"]
+        sig = c["sigma"] if c["sigma"] is not None else 2.0 * c["width"]
+        # reference histogram as the code normalises it (same operation order)
+        tot = 0.0
+        for x in c["ref"]:
+            tot += x
+        integral = tot * c["width"]
+        ref = list(c["ref"])
+        if abs(integral - 1.0) > 1.0e-03:
+            ref = [x / integral for x in ref]
+        refs.append((ref, sig))
+        scn += ["echo CASE %d" % k, "natoms %d" % M, "new", "config EOF"]
+        for i in range(M):
+            scn += colvar_block(i, {"w": 1.0, "per": False})
+        scn += ["histogramRestraint {", "  name r", "  colvars " + " ".join("v%d" % i for i in range(M)),
+                "  lowerBoundary %r" % c["lower"], "  upperBoundary %r" % (c["lower"] + c["nb"] * c["width"]), "  width %r" % c["width"]]
+        if c["sigma"] is not None:
+            scn.append("  gaussianSigma %r" % c["sigma"])
+        scn += ["  refHistogram " + vec(c["ref"]), "  forceConstant %r" % c["k"], "}", "EOF", "show atomf 0 cv 0 energy 0 bias 0"]
+        for xs in c["steps"]:
+            for i, x in enumerate(xs):
+                scn.append("pos %d 0 0 %s" % (i + 1, hx(x)))
+            scn += ["step", "rdump"]
+            ml.append("HIST %s %s %s %s %d %s %d %s" % (hx(c["k"]), hx(sig), hx(c["lower"]), hx(c["width"]), len(ref),
+                                                      " ".join(hx(x) for x in ref), M, " ".join(hx(x) for x in xs)))
+        scn.append("echo END %d" % k)
+    rc, mout, e = V.run_lines(runner.model, ml)
+    rc2, iout, e2 = V.run_lines(runner.unit, scn, cwd=runner.scratch)
+    impl = parse_impl(iout)
+    mi = 0
+
+    def energy(c, ref, sig, xs, scale):
+        M = len(xs)
+        nrm = 1.0 / (math.sqrt(2.0 * math.pi * sig * sig) * M)
+        tot = 0.0
+        for g in range(len(ref)):
+            xg = c["lower"] + (g + 0.5) * c["width"]
+            h = nrm * sum(math.exp(-(xg - x) ** 2 / (2.0 * sig * sig)) for x in xs)
+            tot += (h - ref[g]) ** 2
+        return 0.5 * c["k"] * scale * tot
+
+    for k, c in enumerate(cases):
+        cs = impl.get(k)
+        run.dist("histogramRestraint")
+        ref, sig = refs[k]
+        if cs is None or not cs["complete"] or len(cs["steps"]) != len(c["steps"]) or any("err=ok" not in l for l in cs["config"]):
+            run.mismatch("histogram", c, ((cs or {}).get("config", []) + (cs or {}).get("raw", []))[-3:], "complete run")
+            mi += len(c["steps"])
+            continue
+        nz = False
+        for xs, o in zip(c["steps"], cs["steps"]):
+            M = c["M"]
+            # oracle 1: closed form with the scaling the code uses (k M), forces by central differences of it
+            E = energy(c, ref, sig, xs, M)
+            if not close(E, o["E"], 1e-9):
+                run.violation("potential:histogram:energy", "values %r: energy %r, 1/2 k M sum_g (h(xi_g) - h0_g)^2 = %r" % (xs, o["E"], E), {"kind": "hist", "case": c, "values": xs})
+            hh = 1.0 / 16384       # central difference: truncation ~ hh^2 E/sigma^3 < 1e-6, rounding ~ 1e-16 E/hh
+            for i in range(M):
+                xp = list(xs); xp[i] += hh
+                xm = list(xs); xm[i] -= hh
+                fd = -(energy(c, ref, sig, xp, M) - energy(c, ref, sig, xm, M)) / (2 * hh)
+                if abs(fd - o["F"][i]) > 1e-5 * max(1.0, abs(fd), abs(o["F"][i])):
+                    run.violation("potential:histogram:force", "values %r: force on value %d is %r, minus the derivative of the energy is %r" % (xs, i, o["F"][i], fd), {"kind": "hist", "case": c, "values": xs})
+            # oracle 2: the DOCUMENTED potential 1/2 k INTEGRAL (h - h0)^2 dxi = 1/2 k width sum_g (...)^2 (mid-point rule on the grid)
+            Edoc = energy(c, ref, sig, xs, c["width"])
+            if abs(E) > 1e-12 and not close(Edoc, o["E"], 1e-9):
+                run.violation("potential:histogram:energy-scale", "M %d values %r, width %r: energy %r, documented 1/2 k integral (h-h0)^2 = %r (ratio %r = M/width)" % (M, xs, c["width"], o["E"], Edoc, o["E"] / Edoc if Edoc else float("nan")), {"kind": "hist", "case": c, "values": xs})
+            nz = nz or abs(o["E"]) > 1e-9
+            # tie
+            parts = mout[mi].split(" ; ") if mi < len(mout) else []
+            mi += 1
+            if len(parts) < 2:
+                run.mismatch("histogram", {"case": c, "values": xs}, o["E"], "no model output")
+                continue
+            me = float.fromhex(parts[0])
+            mf = flist(parts[1])
+            if not close(me, o["E"]) or len(mf) != len(o["F"]) or not all(close(a, b) for a, b in zip(mf, o["F"])):
+                run.mismatch("histogram", {"case": c, "values": xs}, [o["E"], o["F"]], [me, mf])
+        run.count("hist%d" % k, nz and c["M"] >= 2)
+
+
+# ---- manifold-valued variables --------------------------------------------------------------------------------------
+def _norm(v):
+    n = math.sqrt(sum(x * x for x in v))
+    return [x / n for x in v]
+
+
+def man_dist2(kind, a, b):
+    if kind == "v3":
+        return sum((x - y) ** 2 for x, y in zip(a, b))
+    cs = sum(x * y for x, y in zip(a, b))
+    th = math.acos(max(-1.0, min(1.0, cs)))
+    if kind == "uv":
+        return th * th
+    return th * th if cs > 0 else (math.pi - th) ** 2     # quaternion: q and -q are the same rotation
+
+
+def man_interp(kind, a, b, lam):
+    v = [(1.0 - lam) * x + lam * y for x, y in zip(a, b)]
+    return v if kind == "v3" else _norm(v)
+
+
+def manifold_part(run, r, runner, n):
+    """harmonic restraint on a 3-vector (distanceVec), a unit vector (distanceDir) and a quaternion (orientation):
+    energy = k/(2 w^2) (geodesic distance)^2 at the reported value; fixed, continuously moving and staged centres =
+    (normalised) linear interpolation, a function of the step alone under run boundaries and restarts"""
+    cases = []
+    refpos = [(1.0, 0.0, 0.0), (0.0, 1.5, 0.0), (0.0, 0.0, 2.0), (-1.0, -1.0, 0.5)]
+    for k in range(n):
+        kind = r.choice(["v3", "uv", "uv", "q", "q"])
+        dim = 4 if kind == "q" else 3
+        rv = lambda: [V.dyadic(r, -2, 2, bits=3) for _ in range(dim)]
+        def nonzero():
+            while True:
+                v = rv()
+                if sum(x * x for x in v) > 0.25:
+                    return v
+        c0, c1 = nonzero(), nonzero()
+        if kind != "v3":
+            # keep the interpolation away from antipodal end points
+            while sum(x * y for x, y in zip(_norm(c0), _norm(c1))) < -0.5:
+                c1 = nonzero()
+        mode = r.choice(["none", "cc", "cc", "cs"])
+        c = {"kind": kind, "c0": c0, "c1": c1, "mode": mode, "k": r.choice([0.5, 1.0, 2.0, 4.0]), "w": r.choice([0.5, 1.0, 2.0]),
+             "N": r.choice([1, 2, 3, 4]), "nstages": r.choice([1, 2, 3]), "it0": r.choice([0, 0, 7]), "fmt": r.choice(["text", "binary"])}
+        nsteps = {"none": r.randint(2, 4), "cc": c["N"] + r.randint(1, 3), "cs": (c["nstages"] + 1) * c["N"] + 2}[mode]
+        ev = []
+        seg = r.choice(["none", "B", "R", "BR"])
+        for s_ in range(nsteps + 1):
+            if kind == "q":
+                # rigid rotation of the reference positions (+ small deformation): any 4 points
+                pos = [[p[j] + V.dyadic(r, -0.5, 0.5, bits=3) for j in range(3)] for p in refpos]
+                if r.random() < 0.7:
+                    a, b_ = r.choice([(0, 1), (1, 2), (0, 2)])
+                    for p in pos:
+                        p[a], p[b_] = -p[b_], p[a]      # quarter turn about the third axis
+            else:
+                p1 = [V.dyadic(r, -2, 2, bits=3) for _ in range(3)]
+                dv = nonzero()
+                pos = [p1, [x + y for x, y in zip(p1, dv)]]
+            ev.append(("S", pos))
+            if seg != "none" and 0 < s_ < nsteps and r.random() < 0.4:
+                ev.append((r.choice(list(seg)), pos))
+        c["events"] = ev
+        cases.append(c)
+    scn = []
+    for k, c in enumerate(cases):
+        kind = c["kind"]
+        nat = 4 if kind == "q" else 2
+        fmtv = lambda v: "(" + ", ".join("%r" % x for x in v) + ")"
+        conf = ["config EOF", "colvar {", "  name v0", "  width %r" % c["w"]]
+        if kind == "q":
+            conf += ["  orientation {", "    atoms { atomNumbers 1 2 3 4 }", "    refPositions " + " ".join(fmtv(p) for p in refpos), "  }"]
+        else:
+            conf += ["  %s {" % ("distanceVec" if kind == "v3" else "distanceDir"), "    group1 { atomNumbers 1 }", "    group2 { atomNumbers 2 }", "  }"]
+        conf += ["}", "harmonic {", "  name r", "  colvars v0", "  forceConstant %r" % c["k"], "  centers " + fmtv(c["c0"])]
+        if c["mode"] != "none":
+            conf += ["  targetCenters " + fmtv(c["c1"]), "  targetNumSteps %d" % c["N"]]
+        if c["mode"] == "cs":
+            conf += ["  targetNumStages %d" % c["nstages"]]
+        conf += ["}", "EOF"]
+        L = ["echo CASE %d" % k, "natoms %d" % nat, "new"]
+        if c["it0"]:
+            L.append("setstep %d" % c["it0"])
+        L += ["capture"] + conf + ["show atomf 0 cv 0 energy 0 bias 0"]
+        nsave = 0
+        for typ, pos in c["events"]:
+            for i, p in enumerate(pos):
+                L.append("pos %d %s %s %s" % (i + 1, hx(p[0]), hx(p[1]), hx(p[2])))
+            if typ == "B":
+                L.append("runboundary")
+            elif typ == "R":
+                f = os.path.join(runner.scratch, "m%d_%d.state" % (k, nsave))
+                nsave += 1
+                L += ["save %s %s" % (c["fmt"], f), "fresh", "capture"] + conf + ["load %s" % f]
+            L += ["step", "rdump"]
+        L.append("echo END %d" % k)
+        c["scenario"] = L
+        scn += L
+    rc2, iout, e2 = V.run_lines(runner.unit, scn, cwd=runner.scratch, timeout=900)
+    impl = parse_impl(iout)
+    ml, where = [], []
+    for k, c in enumerate(cases):
+        cs = impl.get(k)
+        kind = c["kind"]
+        run.dist("manifold:%s:%s" % (kind, c["mode"]))
+        rp = {"kind": "manifold", "case": {kk: vv for kk, vv in c.items() if kk != "scenario"}, "scenario": c["scenario"]}
+        if cs is None or not cs["complete"] or len(cs["steps"]) != len(c["events"]) or any("err=ok" not in l for l in cs["config"]):
+            run.mismatch("manifold", rp["case"], ((cs or {}).get("config", []) + (cs or {}).get("raw", []))[-3:], "complete run")
+            continue
+        a0 = c["c0"] if kind == "v3" else _norm(c["c0"])
+        a1 = c["c1"] if kind == "v3" else _norm(c["c1"])
+        first = c["it0"]
+        t = None
+        N, nst = c["N"], c["nstages"]
+        for (typ, pos), o in zip(c["events"], cs["steps"]):
+            t = first if t is None else (t + 1 if typ == "S" else t)
+            if o["it"] != t:
+                run.violation("protocol:step-number", "manifold scenario: module at step %d, engine at %d" % (o["it"], t), rp)
+                break
+            x = o["X"][0]
+            cen = o["C"][0]
+            # energy at the reported value and centre
+            E = 0.5 * c["k"] / (c["w"] * c["w"]) * man_dist2(kind, x, cen)
+            if not close(E, o["E"], 1e-9) and abs(E - o["E"]) > 1e-12:
+                run.violation("potential:harmonic:%s:energy" % kind, "value %r centre %r: energy %r, k/(2 w^2) x geodesic distance^2 = %r" % (x, cen, o["E"], E), rp)
+            # schedule: centre = (normalised) interpolation at lambda(t)
+            if c["mode"] == "none":
+                lam = 0.0
+            elif c["mode"] == "cc":
+                lam = min(1.0, (t - first) / float(N))
+            else:
+                nm = 0 if t <= first else min(nst + 1, (t - first - 1) // N + 1)
+                lam = None if nm == 0 else (nm - 1) / float(nst)
+            want = a0 if lam is None or c["mode"] == "none" else man_interp(kind, a0, a1, lam)
+            if not all(close(a, b, 1e-9) or abs(a - b) < 1e-12 for a, b in zip(want, cen)):
+                run.violation("schedule:centers:%s" % kind, "step %d (first %d, N %d, %s): centre %r, schedule prescribes %r" % (t, first, N, c["mode"], cen, want), rp)
+            # tie (energy at the interpolated centre; quaternion centres: only when they do not move)
+            lam_m = 0.0 if lam is None else lam
+            if kind != "q" or c["mode"] == "none" or lam_m == 0.0:
+                ml.append("MAN %s %s %s %s %s %s %s" % (kind, hx(c["k"]), hx(c["w"]), hx(lam_m if kind != "q" else 0.0),
+                                                     " ".join(hx(v) for v in a0), " ".join(hx(v) for v in a1), " ".join(hx(v) for v in x)))
+                where.append((k, t, o, rp))
+        run.count("man%d" % k, c["mode"] != "none" or any(abs(o["E"]) > 1e-9 for o in cs["steps"]))
+    rc, mout, e = V.run_lines(runner.model, ml)
+    for (k, t, o, rp), line in zip(where, mout):
+        parts = line.split(" ; ")
+        me = float.fromhex(parts[0])
+        if not close(me, o["E"], 1e-9) and abs(me - o["E"]) > 1e-12:
+            run.mismatch("manifold", {"case": rp["case"], "step": t}, o["E"], me)
+        if len(parts) > 1 and parts[1].strip() != "-":
+            mc = flist(parts[1].strip())
+            if not all(close(a, b, 1e-9) or abs(a - b) < 1e-12 for a, b in zip(mc, o["C"][0])):
+                run.mismatch("manifold", {"case": rp["case"], "step": t}, o["C"][0], mc)
+    if len(mout) != len(where):
+        run.mismatch("manifold", "model run", len(where), len(mout))
 
 
 def setup():
@@ -763,7 +1035,7 @@ def check(run):
     run.assumptions += [
         "theorems about potentials and accumulated work are about the R instance of the model; schedule theorems hold for every numeric carrier; the tie runs the float instance on dyadic inputs",
         "values that passed through a text state file (centres, force constant, accumulated work) are compared with relative tolerance 1e-9",
-        "non-scalar variable types, histogramRestraint and the colvarbias_ti estimator are outside the model (see NOTES.md)",
+        "manifold-valued variables (unit vector, quaternion, 3-vector): the energy and the interpolated centres are tied through coq/C18/ValueModel.v's distances; quaternion interpolation and all non-scalar forces are checked by the oracle only; the colvarbias_ti estimator is outside the model (see NOTES.md)",
     ]
     st = V.standard_start(run, PROP, EXTRACT, DRIVER, PROGS)
     if st is None:
@@ -771,30 +1043,27 @@ def check(run):
     model, exes = st
     runner = Runner(model, exes["c06unit"])
 
-    # ---- replay of the _refuted witnesses on the implementation
+    # ---- regression scenarios of the repaired defects (first: they are the minimised failing cases)
     wit = witness_cases()
     wc = [w[2] for w in wit]
     mlines, ds, mout, impl, _ = runner.run(wc)
-    for k, (sig, osig, c, _) in enumerate(wit):
+    for k, (sig, osig, c) in enumerate(wit):
         cs = impl.get(k)
-        run.dist("witness")
+        run.dist("regression")
         if cs is None or not cs["complete"]:
-            run.mismatch("witness:" + sig, c, (cs or {}).get("raw", [])[-3:], "complete run")
+            run.mismatch("regression:" + sig, c, (cs or {}).get("raw", [])[-3:], "complete run")
             continue
         ms = parse_model_line(mout[k]) if k < len(mout) else []
         bad = compare(c, ds[k], ms, cs["steps"])
         if bad:
-            run.mismatch("witness:" + sig, {"case": c, "model_case": mlines[k]}, bad, "agreement")
-        # the oracle is applied with the side conditions of the partial theorems removed
-        hits = [b for b in oracle_nohyp(c, ds[k], cs["steps"]) if b[0] == osig]
-        run.count("witness:" + sig, True)
-        if hits:
-            run.violation(sig, hits[0][1], {"kind": "scenario", "case": c, "scenario": scenario(c, 0, "."), "model_case": mlines[k]})
-        else:
-            run.notes.append("witness %s is no longer exhibited by the implementation" % sig)
+            run.mismatch("regression:" + sig, {"case": c, "model_case": mlines[k]}, bad, "agreement")
+        run.count("regression:" + sig, True)
+        for osg, text in oracle(c, ds[k], cs["steps"]):
+            run.violation(sig if osg == osig else osg, text,
+                          {"kind": "scenario", "case": c, "scenario": scenario(c, 0, "."), "model_case": mlines[k]})
 
     # ---- generated scenarios (corpus first)
-    n = 260 if quick else 6000
+    n = 260 if quick else 20000
     cases = load_corpus() + [gen_case(r, k, quick) for k in range(n)]
     B = 130
     nmis = 0
@@ -833,17 +1102,10 @@ def check(run):
                 run.violation(sig, text, {"kind": "scenario", "case": c, "scenario": scenario(c, 0, "."), "model_case": mlines[k]})
             if b0 == 0 and k < 2:
                 run.sample({"scenario": config_text(c), "events": c["events"][:6], "first_outputs": cs["raw"][:6]})
-    abmd_part(run, r, runner, 40 if quick else 800)
-    run.cov["correspondence"].update({"scenarios": len(cases), "witness_replays": len(wit)})
-
-
-def oracle_nohyp(c, d, steps):
-    """the oracle with the side conditions of the _partial theorems removed (for witnesses)"""
-    _NOHYP[0] = True
-    try:
-        return oracle(c, d, steps)
-    finally:
-        _NOHYP[0] = False
+    abmd_part(run, r, runner, 40 if quick else 2000)
+    hist_part(run, r, runner, 40 if quick else 2500)
+    manifold_part(run, r, runner, 60 if quick else 3000)
+    run.cov["correspondence"].update({"scenarios": len(cases), "regression_scenarios": len(wit)})
 
 
 def replay(path):
@@ -865,7 +1127,7 @@ def replay(path):
             print("  ", part)
         if impl.get(0):
             print("tie  :", compare(c, ds[0], parse_model_line(mout[0]), impl[0]["steps"]))
-            print("oracle:", oracle_nohyp(c, ds[0], impl[0]["steps"]))
+            print("oracle:", oracle(c, ds[0], impl[0]["steps"]))
     else:
         print(json.dumps(rp, indent=1)[:3000])
     return 0
